@@ -21,6 +21,7 @@ import os
 import re
 import time
 
+from harness import c12_decisions as DEC
 from harness import c12_frontends as FE
 from harness import c12_registry as REG
 from harness import common
@@ -29,12 +30,18 @@ PROPERTY = "C12"
 LEVEL = "proof"
 
 LITERALS = [0, 1, -3, 2.5, -0.0, True, [1, 2], [0.5]]
+# beyond the property's own literal set (task: lists of every kind, bools beside int/float siblings): sampled on every
+# (schema, position) group at a lower rate.  [] is handled by the direct oracle only (no front end promotes it).
+EXT_LITERALS = [False, [True, False], [-0.0, 0.0], [-3, 1], [1, 2.5], [2.5, 1], [True, 1], [1, True], [True, 2.5], [1.0, True],
+                [[1, 2], [3, 4]], [[0.5]], [[True]], [[1], [2.5]], [[[1]]], []]
 MODELLED = {1, 2, 3, 4, 5, 6, 7, 9, 10, 11, 12, 13, 16}       # dclass_of <> COther in Autocast.v
 UNSIGNED = {2, 4, 12, 13}
 PREF = [1, 7, 9, 6, 11, 10, 2, 3, 5, 4, 12, 13, 16, 8]
 
 K_CACHE = "C12:builder-cache:negative-zero-shares-positive-zero-initializer"
 K_NEG_UNSIGNED = "C12:negative-int-literal-beside-unsigned-tensor:numpy-overflowerror-vs-castlike-wraparound"
+K_BUILDER_LIST = "C12:builder-refuses-list-literal-outside-cached-path:initializer-must-have-a-name:"     # + mixed-list | nested-list
+K_LIST_DEFAULT = "C12:list-literal-without-sibling:numpy-inferred-dtype-vs-first-element-dtype:"          # + mixed-list | nested-list
 
 _STATE = {}
 
@@ -96,10 +103,99 @@ def regenerate(ctx):
     _STATE["cache_key"] = kind
     # when the key is not recognised the model keeps the proven key; the replay below then looks for a failing history
     eqname = {"eq": "py_eq", "signed": "key_eq_signed", None: "key_eq_signed"}[kind]
+    regenerate_decisions(ctx)
     ctx.gen("CacheKey", "(* GENERATED by harness/c12.py from onnxscript/_internal/builder.py (_get_or_create_constant) -- do not edit. *)\n"
                         "Require Import OV.Autocast.Autocast.\n"
                         f"Definition current_key_eq : scalar -> scalar -> bool := {eqname}.\n"
                         f"Definition current_key_signed : bool := {'true' if kind != 'eq' else 'false'}.\n")
+
+
+_EXPECTED = dict(
+    static=dict(key="KeyConstraintName", index_branch=True, variadic_branch=True, raise_otherwise=True, hetero_none=True, tail_binds=True,
+                paren_guard=True, first_wins=False, bind="BindInfoNotNone", info="InfoNonCastableValue", cast="CastLikeIfBound",
+                none_passes=True, cast_by_lookup=True),
+    eager=dict(key="KeyConstraintName", index_branch=True, variadic_branch=True, raise_otherwise=True, hetero_none=True, tail_binds=True,
+               paren_guard=True, first_wins=False, bind="BindInfoNotNone", info="InfoTensorDtype", cast="CreateAtBound",
+               none_passes=True, cast_by_lookup=True),
+    builder=dict(key="KeyTypeStr", index_branch=True, variadic_branch=True, raise_otherwise=True, hetero_none=True, tail_binds=True,
+                 paren_guard=True, first_wins=True, bind="BindIsValue", info="InfoValueItself", cast="CreateIfKnownElseCastLike",
+                 none_passes=True, cast_by_lookup=True))
+
+
+def probe_variant():
+    """which variant of the creation code the implementation is in, observed on the real code"""
+    import numpy as np
+    import onnx_ir as ir
+    from onnxscript._internal import autocast
+    from onnxscript._internal import builder as B
+    try:
+        t = autocast.cast_pyvalue_to_os_tensor(-3, np.uint8)
+        eager_wrap = int(np.asarray(t.value)) == 253
+    except OverflowError:
+        eager_wrap = False
+
+    def fresh():
+        g = ir.Graph([], [], nodes=[], opset_imports={"": 18}, name="g")
+        gb = B.GraphBuilder(g)
+        gb._infer_shapes = lambda node: None
+        x = ir.Value(name="x", type=ir.TensorType(ir.DataType.UINT8), shape=ir.Shape([2]))
+        g.inputs.append(x)
+        return gb, x
+    gb, x = fresh()
+    try:
+        v = gb.op.Add(x, -3).producer().inputs[1]
+        builder_wrap = v.const_value is not None and int(v.const_value.numpy()) == 253
+    except OverflowError:
+        builder_wrap = False
+    gb, x = fresh()
+    try:
+        v = gb.op.Add(x, [1, 2.5]).producer().inputs[1]
+        builder_named = v is not None and bool(v.name)
+    except ValueError:
+        builder_named = False
+    return eager_wrap, builder_wrap, builder_named
+
+
+def regenerate_decisions(ctx):
+    R = common.REPO
+    tables, errors = {}, []
+    src_flags = dict(eager_wrap=None, builder_wrap=None, builder_named=None)
+    try:
+        st, eg, ew = DEC.translate_autocast(os.path.join(R, "onnxscript/_internal/autocast.py"))
+        tables["static"], tables["eager"], src_flags["eager_wrap"] = st, eg, ew
+    except (REG.TranslationError, SyntaxError, OSError) as e:
+        errors.append(("onnxscript/_internal/autocast.py", str(e)))
+    try:
+        tables["builder"] = DEC.translate_builder(os.path.join(R, "onnxscript/_internal/tape_builder.py"))
+    except (REG.TranslationError, SyntaxError, OSError) as e:
+        errors.append(("onnxscript/_internal/tape_builder.py", str(e)))
+    try:
+        src_flags["builder_wrap"], src_flags["builder_named"] = DEC.translate_builder_creation(os.path.join(R, "onnxscript/_internal/builder.py"))
+    except (REG.TranslationError, SyntaxError, OSError) as e:
+        errors.append(("onnxscript/_internal/builder.py:_get_or_create_constant(creation)", str(e)))
+    try:
+        inv, unmodelled, missing = DEC.cache_inventory(R)
+    except (SyntaxError, OSError) as e:
+        inv, unmodelled, missing = [], [("?", "?", str(e))], []
+    try:
+        variant = probe_variant()
+    except Exception as e:  # noqa: BLE001
+        errors.append(("variant probe", f"{type(e).__name__}: {e}"))
+        variant = (False, False, False)
+    # an unreadable function keeps the table the theorems are about (the broken translator tie is reported in run(),
+    # where the correspondence run then looks for a failing input); a readable one is written as read
+    full = {k: tables.get(k, _EXPECTED[k]) for k in ("static", "eager", "builder")}
+    differ = {k: {f: (v, _EXPECTED[k][f]) for f, v in full[k].items() if v != _EXPECTED[k][f]} for k in full}
+    differ = {k: v for k, v in differ.items() if v}
+    probe = dict(eager_wrap=variant[0], builder_wrap=variant[1], builder_named=variant[2])
+    ctx.gen("C12Decisions", DEC.to_coq(full["static"], full["eager"], full["builder"],
+                                       bool(src_flags["eager_wrap"]), bool(src_flags["builder_wrap"]), bool(src_flags["builder_named"]), inv))
+    ctx.gen("C12Variant", "(* GENERATED by harness/c12.py: the variant of the creation code observed on the real implementation -- do not edit. *)\n"
+                          "Require Import OV.Autocast.Autocast.\n"
+                          f"Definition current : variant := mkV {'true' if variant[0] else 'false'} {'true' if variant[1] else 'false'} "
+                          f"{'true' if variant[2] else 'false'}.\n")
+    _STATE.update(dec_errors=errors, dec_differ=differ, dec_tables=full, variant=probe, src_flags=src_flags,
+                  cache_inventory=inv, cache_unmodelled=unmodelled, cache_missing=missing)
 
 
 # --------------------------------------------------------------------------------------------- case generation
@@ -198,14 +294,34 @@ def make_cases(ctx, reg):
         if ctx.tier == "quick":
             k = max(1, math.ceil(0.2 * len(combos)))
             combos = rng.sample(combos, k)
+        ext = [(l, d) for l in EXT_LITERALS for d in g["dtypes"]]
+        n_ext = (1 if rng.random() < 0.5 else 0) if ctx.tier == "quick" else max(2, len(ext) // 8)
+        combos = combos + rng.sample(ext, min(n_ext, len(ext)))
         for lit, d in combos:
             flags = None
             if g["sharing"] and rng.random() < 0.25:
                 flags = [rng.random() < 0.5 for _ in g["sharing"]]
                 if all(flags):
                     flags[rng.randrange(len(flags))] = False
-            cases.append(concretize(reg, g, lit, d, flags))
+            c = concretize(reg, g, lit, d, flags)
+            # the same operand passed by keyword (an input named like an attribute would be: Clip(x, min=0))
+            if g["variant"] == "single" and rng.random() < 0.12 and _kw_able(c):
+                c["kw_from"] = c["pos"]
+            cases.append(c)
     return gs, cases
+
+
+def _kw_able(c):
+    import keyword
+    F = c["schema"]["formals"]
+    attrs = {n for n, _ in c["schema"]["required"]}
+    if len(c["args"]) > len(F) or any(f["opt"] == "OVariadic" for f in F):
+        return False                       # generated opset methods take *variadic: the fixed formals before it are positional-only in effect
+    for j in range(c["pos"], len(c["args"])):
+        nm = F[j]["name"]
+        if F[j]["opt"] == "OVariadic" or not nm.isidentifier() or keyword.iskeyword(nm) or nm in attrs or c["args"][j][0] == "O":
+            return False
+    return True
 
 
 OPERATORS = [("+", "Add", True), ("-", "Sub", True), ("*", "Mul", True), ("/", "Div", False), ("**", "Pow", False),
@@ -269,10 +385,33 @@ def c_scalar(x):
     return f"(SFloat {'true' if math.copysign(1.0, x) < 0 else 'false'} {c_n(num)} {c_n(den.bit_length() - 1)})"
 
 
+def flatten(l):
+    if isinstance(l, list):
+        return [x for v in l for x in flatten(v)]
+    return [l]
+
+
+def depth(l):
+    return 1 + depth(l[0]) if isinstance(l, list) and l else (1 if isinstance(l, list) else 0)
+
+
 def c_literal(l):
     if isinstance(l, list):
-        return f"(LList {c_scalar(l[0])} {common.clist([c_scalar(v) for v in l[1:]])})"
+        fl = flatten(l)
+        ctor = "LNested" if depth(l) >= 2 else "LList"
+        return f"({ctor} {c_scalar(fl[0])} {common.clist([c_scalar(v) for v in fl[1:]])})"
     return f"(LScalar {c_scalar(l)})"
+
+
+def lit_class(l):
+    """scalar | flat-list (one Python type) | mixed-list | nested-list | empty-list"""
+    if not isinstance(l, list):
+        return "scalar"
+    if not flatten(l):
+        return "empty-list"
+    if depth(l) >= 2:
+        return "nested-list"
+    return "flat-list" if len({type(v) for v in l}) == 1 else "mixed-list"
 
 
 def c_arg(a):
@@ -313,12 +452,15 @@ def c_case(c, obs):
 # --------------------------------------------------------------------------------------------- direct oracle
 
 def lit_kind(l):
-    h = l[0] if isinstance(l, list) else l
+    fl = flatten(l)
+    h = fl[0] if fl else None
+    if h is None:
+        return "none"
     return "bool" if isinstance(h, bool) else ("int" if isinstance(h, int) else "float")
 
 
 def has_negative_int(l):
-    xs = l if isinstance(l, list) else [l]
+    xs = flatten(l)
     return any(isinstance(v, int) and not isinstance(v, bool) and v < 0 for v in xs)
 
 
@@ -327,18 +469,29 @@ def describe(c):
     d = dict(op=f"{r['name']}-{r['since']} (opset {c.get('opset', r['use'])})", args=[list(a) for a in c["args"]], pos=c["pos"])
     if c.get("syntax"):
         d["syntax"] = c["syntax"]
+    if c.get("kw_from") is not None:
+        d["kw_from"] = c["kw_from"]
     return d
+
+
+def _same_err_or_obs(a, b):
+    return a[:2] == b[:2] if a[0] == "ERR" and b[0] == "ERR" else a == b
 
 
 def direct_oracle(ctx, c, obs, stats):
     """the property itself on the real code: the three operands agree (element type, rank, values).
     Returns True when the property holds on this case."""
-    conv, eag, bld = obs
     names = ("converter", "eager", "builder")
     errs = [o[0] == "ERR" for o in obs]
     lit, d = c["lit"], c["d"]
-    rep = dict(describe(c), converter=conv, eager=eag, builder=bld)
-    if any(errs):
+    cls = lit_class(lit)
+    rep = dict(describe(c), converter=obs[0], eager=obs[1], builder=obs[2])
+    ok = True
+    if cls == "empty-list":
+        # no Python type to go by: the converter and eager mode refuse / do not promote it by design; only require
+        # that the front ends that DO make a tensor of it agree
+        stats["empty_list"] += 1
+    elif any(errs):
         if all(errs):
             stats["all_refuse"] += 1
             # a call every front end refuses is not a promotion; nothing to compare
@@ -350,31 +503,48 @@ def direct_oracle(ctx, c, obs, stats):
                           f"{lit!r} beside a {dtname(d)} tensor: " + ", ".join(f"{n}={'OverflowError' if e else o[3]}" for n, e, o in zip(names, errs, obs)),
                           rep)
             return False
-        who = "+".join(n for n, e in zip(names, errs) if e)
-        exc = "+".join(sorted({o[1] for o in obs if o[0] == "ERR"}))
-        ctx.violation(f"C12:refusal-mismatch:{who}:{exc}:{lit_shape(lit)}:{dclass_name(d)}",
-                      f"{describe(c)['op']} literal {lit!r}: {who} raise(s) {exc} while the other front end(s) produce a tensor", rep)
-        return False
-    codes = [o[1] for o in obs]
+        if errs == [False, False, True] and obs[2][1] == "ValueError" and "Initializer must have a name" in obs[2][2] \
+                and cls in ("mixed-list", "nested-list"):
+            stats["builder_list_refused"] += 1
+            ctx.violation(K_BUILDER_LIST + cls,
+                          f"{describe(c)['op']} literal {lit!r}: the graph builder raises ValueError(Initializer must have a name) "
+                          f"while converter and eager mode promote it", rep)
+            ok = False          # and go on: converter and eager are still compared with each other
+        else:
+            who = "+".join(n for n, e in zip(names, errs) if e)
+            exc = "+".join(sorted({o[1] for o in obs if o[0] == "ERR"}))
+            ctx.violation(f"C12:refusal-mismatch:{who}:{exc}:{lit_shape(lit)}:{dclass_name(d)}",
+                          f"{describe(c)['op']} literal {lit!r}: {who} raise(s) {exc} while the other front end(s) produce a tensor", rep)
+            return False
+    live = [(n, o) for n, o in zip(names, obs) if o[0] != "ERR"]
+    if len(live) < 2:
+        return ok
+    codes = [o[1] for _, o in live]
     if len(set(codes)) != 1:
-        ctx.violation(f"C12:dtype-mismatch:{lit_shape(lit)}:{dclass_name(d)}:{odd_one(codes)}",
-                      f"{describe(c)['op']} literal {lit!r} at position {c['pos']}: converter/eager/builder element types {[dtname(x) for x in codes]}", rep)
+        if cls in ("mixed-list", "nested-list") and d is None:
+            stats["list_default_dtype"] += 1
+            ctx.violation(K_LIST_DEFAULT + cls,
+                          f"{describe(c)['op']} literal {lit!r} (no sibling): element types "
+                          f"{[(n, dtname(o[1]), o[3]) for n, o in live]}", rep)
+            return False
+        ctx.violation(f"C12:dtype-mismatch:{lit_shape(lit)}:{dclass_name(d)}:{odd_one([o[1] if o[0] != 'ERR' else None for o in obs])}",
+                      f"{describe(c)['op']} literal {lit!r} at position {c['pos']}: element types {[(n, dtname(x)) for (n, _), x in zip(live, codes)]}", rep)
         return False
-    ranks = [o[2] for o in obs]
-    want_rank = 1 if isinstance(lit, list) else 0
-    if ranks != [want_rank] * 3:
-        ctx.violation(f"C12:rank-mismatch:{lit_shape(lit)}:{odd_one(ranks)}",
+    ranks = [o[2] for _, o in live]
+    want_rank = depth(lit)
+    if ranks != [want_rank] * len(live):
+        ctx.violation(f"C12:rank-mismatch:{lit_shape(lit)}:{odd_one([o[2] if o[0] != 'ERR' else None for o in obs])}",
                       f"{describe(c)['op']} literal {lit!r}: ranks {ranks}, expected {want_rank}", rep)
         return False
     if codes[0] == FE.STRING:
         stats["string_value_skipped"] += 1
-        return True
-    vals = [o[3] for o in obs]
-    if not (vals[0] == vals[1] == vals[2]):
-        ctx.violation(f"C12:value-mismatch:{lit_shape(lit)}:{dclass_name(codes[0])}:{odd_one(vals)}",
-                      f"{describe(c)['op']} literal {lit!r} as {dtname(codes[0])}: converter/eager/builder values {vals}", rep)
+        return ok
+    vals = [o[3] for _, o in live]
+    if any(v != vals[0] for v in vals):
+        ctx.violation(f"C12:value-mismatch:{lit_shape(lit)}:{dclass_name(codes[0])}:{odd_one([o[3] if o[0] != 'ERR' else None for o in obs])}",
+                      f"{describe(c)['op']} literal {lit!r} as {dtname(codes[0])}: values {[(n, v) for (n, _), v in zip(live, vals)]}", rep)
         return False
-    return True
+    return ok
 
 
 def dclass_name(code):
@@ -402,6 +572,9 @@ def odd_one(xs):
 
 
 def lit_shape(l):
+    cls = lit_class(l)
+    if cls in ("mixed-list", "nested-list", "empty-list"):
+        return cls + "-literal"
     return lit_kind(l) + ("-list" if isinstance(l, list) else "") + "-literal"
 
 
@@ -413,7 +586,7 @@ def dtname(code):
 # --------------------------------------------------------------------------------------------- cache
 
 CACHE_LITS = [0, 1, -3, 2.5, -0.0, True, [1, 2], [0.5], 0.0, 1.0, False, [0.0], [-0.0], [0], [1.0, 2.0], [True], -1, 3, [1],
-              2, -2.5, [2.5], [-0.0, 1.0], [0.0, 1.0], [0, 1]]
+              2, -2.5, [2.5], [-0.0, 1.0], [0.0, 1.0], [0, 1], [1, True], [True, 1], [1, 2.5], [[1, 2]], [1, 1], [1.0, 1]]
 CACHE_DTYPES = [None, 1, 7, 11, 6, 10, 9, 2]
 CORPUS_HISTORIES = [
     [(0.0, 1), (-0.0, 1)], [(-0.0, 1), (0.0, 1)], [(0, 1), (-0.0, 1)], [([0.0], 1), ([-0.0], 1)],
@@ -488,7 +661,7 @@ def check_cache(ctx):
             if owner is not None and owner != i:
                 shared += 1
             want = fresh_obs(lit, d, memo)
-            if obs != want:
+            if not _same_err_or_obs(obs, want):
                 conflations += 1
                 olit, od = h[owner] if owner is not None else (None, None)
                 # the class of the known finding: the two tensors differ only in the sign of zero elements
@@ -503,9 +676,10 @@ def check_cache(ctx):
     for k in range(0, len(hists), 150):
         chunk = hists[k:k + 150]
         bodies.append("Definition hs : list (list (literal * option dtype)) := " + common.clist([c_history(h) for h in chunk]) + ".\n"
-                      "Eval vm_compute in (map (cache_trace current_key_eq [] [] 0) hs).")
+                      "Eval vm_compute in (map (cache_trace (v_builder_wrap OV.Gen.C12Variant.current) (v_builder_named OV.Gen.C12Variant.current) "
+                      "current_key_eq [] [] 0) hs).")
         spans.append((k, len(chunk)))
-    results = eval_shards(ctx, ["OV.Autocast.Autocast", "OV.Gen.CacheKey"], bodies, "c12cache")
+    results = eval_shards(ctx, ["OV.Autocast.Autocast", "OV.Gen.CacheKey", "OV.Gen.C12Variant"], bodies, "c12cache")
     bad = []
     for (k, n), (ok, vals, raw) in zip(spans, results):
         if not ok or not vals:
@@ -564,6 +738,13 @@ def eval_shards(ctx, requires, bodies, prefix, par=8):
 # --------------------------------------------------------------------------------------------- run
 
 def run(ctx):
+    try:
+        _run(ctx)
+    finally:
+        flush_pending_ties(ctx, False)
+
+
+def _run(ctx):
     ctx.assume("float literals are exactly representable in float32 and in the target float type (true for the property's literal set "
                "0, 1, -3, 2.5, -0.0, 0.5, 2); rounding of other float literals is outside the Coq value model")
     ctx.assume("values are modelled for the integer types of 8..64 bits, BOOL, FLOAT16, BFLOAT16, FLOAT, DOUBLE; for STRING, complex, "
@@ -579,9 +760,12 @@ def run(ctx):
     ctx.trust("coq/Gen/Schemas.v is printed from onnx.defs of the installed onnx by harness/c12_registry.py (fail-closed on unknown type strings)")
     t0 = time.time()
     ok = ctx.check_props()
-    okb, _ = ctx.build(["Gen/CacheKey.vo"])
+    okb, _ = ctx.build(["Gen/CacheKey.vo", "Gen/C12Variant.vo", "Gen/C12Decisions.vo"])
     reg = _STATE.get("reg")
-    if reg is None or not ok or not okb:
+    report_decisions(ctx)
+    # when the only reason for a failed proof is a decision flag that changed in the source, go on: the models and
+    # the registry still build and the correspondence run below looks for the input on which the change shows
+    if reg is None or not okb or (not ok and not _STATE.get("dec_differ")):
         return
     ctx.obligation("registry: forallb schema_okb Gen.Schemas.all = true re-proved against the regenerated registry "
                    f"({len(reg)} schemas)", True)
@@ -598,7 +782,7 @@ def run(ctx):
     for k in range(0, len(cases), 400):
         fns += FE.compile_scripts(cases[k:k + 400], workdir, f"{os.getpid()}_{k}")
     t_conv = time.time() - t1
-    stats = dict(all_refuse=0, neg_unsigned=0, string_value_skipped=0)
+    stats = dict(all_refuse=0, neg_unsigned=0, string_value_skipped=0, empty_list=0, builder_list_refused=0, list_default_dtype=0)
     observations = []
     n_castlike = {"converter": 0, "builder": 0}
     holds = []
@@ -616,7 +800,7 @@ def run(ctx):
         g = c["group"]
         f = c["schema"]["formals"][g["fi"]] if g else None
         ctx.case((g["variant"] if g else ("operator " + c["syntax"] if c.get("syntax") else "corpus"), g["cfg"] if g else "", f["opt"] if f else "", bool(f and f["is_var"]),
-                  lit_kind(c["lit"]), isinstance(c["lit"], list), dtname(c["d"]),
+                  lit_kind(c["lit"]), lit_class(c["lit"]), c.get("kw_from") is not None, f["homog"] if f else None, dtname(c["d"]),
                   tuple(a[2] for a in c["args"] if a[0] == "T" and len(a) > 2 and not a[2]) != ()))
         holds.append(direct_oracle(ctx, c, obs, stats))
     t_run = time.time() - t2
@@ -626,19 +810,20 @@ def run(ctx):
     # ---- correspondence inside Coq: model of each front end, and the specification, against what was observed
     t3 = time.time()
     bodies, spans = [], []
-    for k in range(0, len(cases), 700):
-        chunk = list(zip(cases[k:k + 700], observations[k:k + 700]))
+    coq_idx = [i for i, c in enumerate(cases) if lit_class(c["lit"]) != "empty-list"]      # [] has no Gallina literal
+    for k in range(0, len(coq_idx), 700):
+        chunk = [(cases[i], observations[i]) for i in coq_idx[k:k + 700]]
         bodies.append("Definition cs : list ccase := " + common.clist([c_case(c, o) for c, o in chunk]) + ".\n"
-                      "Eval vm_compute in (bad_cases OV.Gen.Schemas.all 0%N cs).")
+                      "Eval vm_compute in (bad_cases OV.Gen.C12Variant.current OV.Gen.Schemas.all 0%N cs).")
         spans.append(k)
-    results = eval_shards(ctx, ["OV.Autocast.Autocast", "OV.Gen.Schemas"], bodies, "c12promo")
+    results = eval_shards(ctx, ["OV.Autocast.Autocast", "OV.Gen.Schemas", "OV.Gen.C12Variant"], bodies, "c12promo")
     model_bad, spec_bad = [], []
     for k, (okc, vals, raw) in zip(spans, results):
         if not okc or not vals:
             ctx.tie_broken("correspondence", "promotion:model-evaluation", raw[-800:])
             return
         for m in re.finditer(r"\((\d+)(?:%N)?,\s*(\d+)(?:%N)?\)", vals[0]):
-            i, code = k + int(m.group(1)), int(m.group(2))
+            i, code = coq_idx[k + int(m.group(1))], int(m.group(2))
             if code & 7 or code & 64:
                 model_bad.append((i, code))
             if code & 56:
@@ -669,16 +854,28 @@ def run(ctx):
                    "promote_builder on every case", not [1 for i, _ in model_bad if holds[i]] and not passthrough_bad,
                    f"{len(model_bad)} disagreeing")
     ctx.obligation("oracle promotion: the three front ends and the rule agree on every case outside the known finding",
-                   all(h or _is_known_neg(cases[i], observations[i]) for i, h in enumerate(holds)), "")
+                   all(h or _is_known(cases[i], observations[i]) for i, h in enumerate(holds)), "")
     if n_sib < 0.3 * len(cases) or n_unknown == 0:
         ctx.tie_broken("harness", "generator-degenerate", f"{n_sib} sibling cases, {n_unknown} unknown-dtype cases of {len(cases)}")
-    by_lit = {}
+    by_lit, by_class, by_pos = {}, {}, {}
     for c in cases:
         by_lit[repr(c["lit"])] = by_lit.get(repr(c["lit"]), 0) + 1
+        by_class[lit_class(c["lit"])] = by_class.get(lit_class(c["lit"]), 0) + 1
+        g = c["group"]
+        if g:
+            f = c["schema"]["formals"][g["fi"]]
+            kind = g["variant"] + ("" if f["opt"] != "OVariadic" else ("/homogeneous" if f["homog"] else "/heterogeneous")) \
+                + ("/optional" if f["opt"] == "OOptional" else "") + ("/omitted-optional-before" if any(a[0] == "N" for a in c["args"][:c["pos"]]) else "")
+            by_pos[kind] = by_pos.get(kind, 0) + 1
+    n_bool_sib = sum(1 for c in cases if isinstance(c["lit"], bool) and c["d"] is not None and c["d"] != 9)
     errs = {n: sum(1 for o in observations if o[k][0] == "ERR") for k, n in enumerate(names)}
     ctx.cover(schemas=len(reg), groups=len(gs), schemas_exercised=len({c["si"] for c in cases}),
               promotion_cases=len(cases), operator_syntax_cases=len(ops), cases_with_sibling=n_sib, cases_with_unknown_dtype_sibling=n_unknown,
-              cases_by_literal=by_lit, refusals=errs, all_three_refuse=stats["all_refuse"],
+              cases_by_literal=by_lit, cases_by_literal_class=by_class, cases_by_position_kind=by_pos,
+              bool_literal_beside_non_bool_sibling=n_bool_sib, keyword_passed_operand_cases=sum(1 for c in cases if c.get("kw_from") is not None),
+              schema_versions_per_op_max=max(sum(1 for r in reg if r["name"] == n) for n in {r["name"] for r in reg}),
+              empty_list_cases=stats["empty_list"], builder_refuses_list=stats["builder_list_refused"],
+              list_default_dtype_disagreements=stats["list_default_dtype"], refusals=errs, all_three_refuse=stats["all_refuse"],
               negative_int_beside_unsigned=stats["neg_unsigned"], string_sibling_value_not_compared=stats["string_value_skipped"],
               sibling_dtypes=sorted({dtname(c["d"]) for c in cases}),
               cast_oracle_entries=len(oracle.memo), cast_oracle_ort_runs=oracle.ort_used,
@@ -687,12 +884,54 @@ def run(ctx):
               seconds=dict(proofs=round(t_proofs, 1), convert=round(t_conv, 1), frontends=round(t_run, 1), coq_eval=round(t_coq, 1)),
               not_covered="values beside STRING siblings; float literals not exactly representable in float32 (e.g. 0.1 beside a DOUBLE "
                           "tensor: the converter's Constant is float32, eager/builder create float64 directly -- outside the property's literal set); "
-                          "empty lists; lists mixing Python types; deprecated ops (Scatter, Upsample, GroupNormalization-18); custom domains")
+                          "NaN literals (cache probe only); deprecated ops (Scatter, Upsample, GroupNormalization-18); custom domains")
     # ---- the constant cache
     check_cache(ctx)
     outside_quantifier_probe(ctx, oracle)
     if ctx.tier == "thorough":
         ctx.coqchk(["Props.C12"])
+
+
+def report_decisions(ctx):
+    for name, why in _STATE.get("dec_errors", []):
+        _STATE.setdefault("pending_ties", []).append(("translator", name, why))
+    differ = _STATE.get("dec_differ") or {}
+    ctx.obligation("translator decisions: the branch conditions of cast_inputs / static_cast_inputs / dynamic_cast_inputs / "
+                   "BuilderBase._cast_inputs / _input_to_ir_value read from the ast are the ones C12_code_tables_are_model_instances is proved for",
+                   not differ and not _STATE.get("dec_errors"), json.dumps(differ or _STATE.get("dec_errors"), default=str)[:600])
+    if differ:
+        _STATE.setdefault("pending_ties", []).append(("translator", "decision flags", json.dumps(differ, default=str)[:600]))
+    un, missing = _STATE.get("cache_unmodelled", []), _STATE.get("cache_missing", [])
+    ctx.obligation("translator caches: every functools cache decorator / dict memo in the anchored files has a modelled key "
+                   f"({len(_STATE.get('cache_inventory', []))} found)", not un and not missing, json.dumps(dict(unmodelled=un, vanished=missing))[:600])
+    for f, fn, c in un:
+        _STATE.setdefault("pending_ties", []).append(("translator", f"{f}:{fn}", f"cache / memo `{c}` has no modelled key"))
+    for k in missing:
+        _STATE.setdefault("pending_ties", []).append(("translator", f"{k[0]}:{k[1]}", f"modelled cache `{k[2]}` no longer found"))
+    v, sf = _STATE.get("variant", {}), _STATE.get("src_flags", {})
+    mism = {k: (sf.get(k), v.get(k)) for k in v if sf.get(k) is not None and sf.get(k) != v.get(k)}
+    ctx.obligation("variant: the creation code read from the ast (np.array vs astype; named fall-through initializer) is the behaviour probed on the real code",
+                   not mism, json.dumps(mism))
+    if mism:
+        _STATE.setdefault("pending_ties", []).append(("translator", "creation variant", json.dumps(mism)))
+    ctx.cover(code_variant=v, decision_tables={k: {f: str(x) for f, x in t.items()} for k, t in (_STATE.get("dec_tables") or {}).items()},
+              cache_inventory=[list(x[:3]) for x in _STATE.get("cache_inventory", [])])
+
+
+def flush_pending_ties(ctx, found_violation):
+    """translator ties are reported after the correspondence run had its chance to find a failing input"""
+    for kind, name, why in _STATE.pop("pending_ties", []):
+        ctx.tie_broken(kind, name, why)
+
+
+def _is_known(c, obs):
+    cls = lit_class(c["lit"])
+    if cls in ("mixed-list", "nested-list"):
+        if obs[2][0] == "ERR" and "Initializer must have a name" in obs[2][2]:
+            return True
+        if c["d"] is None:
+            return True
+    return _is_known_neg(c, obs)
 
 
 def _is_known_neg(c, obs):
